@@ -19,6 +19,7 @@ import SarpyModel.Drivers.Chip
 import SarpyModel.Drivers.Supported
 import SarpyModel.Drivers.Segment
 import SarpyModel.Drivers.FieldFmt2
+import SarpyModel.Drivers.XsdFmt
 namespace Sarpy.Drivers
 
 def step (line : String) : String :=
@@ -45,6 +46,7 @@ def step (line : String) : String :=
   | "supported" :: rest => (supportedStep rest).getD "bad-op"
   | "seg" :: rest => (segStep rest).getD "bad-op"
   | "fmt2" :: rest => (fmt2Step rest).getD "bad-op"
+  | "xsd" :: rest => (xsdStep rest).getD "bad-op"
   | _ => "bad-op"
 
 partial def loop (h : IO.FS.Stream) : IO Unit := do
